@@ -26,7 +26,9 @@ def estimate_sigma0(X: np.ndarray) -> float:
 
 
 def estimate_stds(X: np.ndarray) -> np.ndarray:
-    return np.sqrt(np.diag(estimate_covariance(X)))
+    # Avoid zero standard deviations (a parent population that has collapsed in some coordinate), which make
+    # cma.CMAEvolutionStrategy fail with a non-finite norm in its first update.
+    return np.maximum(np.sqrt(np.diag(estimate_covariance(X))), _EPS)
 
 
 def get_population(
